@@ -25,9 +25,9 @@ type ProgCase struct {
 	Prog      string      `json:"prog"`
 	Selectors []string    `json:"selectors,omitempty"`
 	Inputs    []ProgInput `json:"inputs"`
-	Budget    int64       `json:"budget"`     // statements; 0 = unlimited
-	ExprAPI   bool        `json:"expr_api"`   // call lang.EvalExpression(Prog, decoded Inputs[0])
-	RootJSON  bool        `json:"root_json"`  // after a successful run also ask for the root JSON (the -o path)
+	Budget    int64       `json:"budget"`    // statements; 0 = unlimited
+	ExprAPI   bool        `json:"expr_api"`  // call lang.EvalExpression(Prog, decoded Inputs[0])
+	RootJSON  bool        `json:"root_json"` // after a successful run also ask for the root JSON (the -o path)
 }
 
 func runProgCase(c *ProgCase, keep bool) Outcome {
@@ -721,7 +721,7 @@ func registerC01() {
 	p := &Property{
 		ID:    "C01",
 		Level: "exploration",
-		Rule: "class invariant (success | SyntaxError | RuntimeError | JsonError; no panic, no foreign error value, no process death) over: the enumerated signal x wrapping x site x input grid; seeded program texts from a grammar-based generator, plain and garbled at token and byte level, with seeded selectors and inputs, evaluated under a statement budget; faulted input streams; resource shapes each in its own OS process; the EvalExpression API; the real binary (exit status / stderr / no stack trace). Distinct = distinct (outcome kind, error-message shape) or event-log shape; non-trivial = every executed case.",
+		Rule:  "class invariant (success | SyntaxError | RuntimeError | JsonError; no panic, no foreign error value, no process death) over: the enumerated signal x wrapping x site x input grid; seeded program texts from a grammar-based generator, plain and garbled at token and byte level, with seeded selectors and inputs, evaluated under a statement budget; faulted input streams; resource shapes each in its own OS process; the EvalExpression API; the real binary (exit status / stderr / no stack trace). Distinct = distinct (outcome kind, error-message shape) or event-log shape; non-trivial = every executed case.",
 		Assumptions: []string{
 			"only the outcome class is asserted; no opinion on what next means in BEGIN etc.",
 			"program texts up to 64 KiB as the property says; the statement budget hook (build tag verif) turns non-termination into a runtime error, which is a legal outcome",
